@@ -1,10 +1,10 @@
 (* C07 — bitwise logic, shifts and bit queries follow infinite two's-complement semantics.
    Statements only; proofs live in proofs/ShiftCoreProofs.v, BitsLemmas.v, BitsProofsU.v,
-   BitsProofsTC.v, BitsProofsI.v (generic in the source-extracted decision points) and are
+   BitsProofsTC.v, BitsProofsI.v, BitsProofsSNB.v (generic in the source-extracted decision points) and are
    instantiated at the parameters extracted from /repo's current source.
    [vec_ok l] = fewer than 2^58 digits (a 64-bit address space holds no longer vector). *)
 From BigNum Require Import Base BaseLemmas X86 AddSub AddSubProofs ShiftCore ShiftCoreProofs
-  Bits SpecBits BitsLemmas BitsProofsU BitsProofsTC BitsProofsI Extracted InstAddSub InstBits.
+  Bits SpecBits BitsLemmas BitsProofsU BitsProofsTC BitsProofsI BitsProofsSNB Extracted InstAddSub InstBits.
 Open Scope Z_scope.
 
 (** * BigUint & | ^ (ref-ref and val-ref/assign forms) *)
@@ -153,18 +153,12 @@ Theorem C07_set_bit_nonneg : forall x i v, icanon x -> sg x <> Minus -> 0 <= i <
   iset_bit bits x i v = omap ienc (spec_set_bit (ival x) i v).
 Proof. intros. apply iset_bit_nonneg_spec; auto using bits_params_ok. Qed.
 Print Assumptions C07_set_bit_nonneg.
-(* Full statement (negative values):
-     forall x i v, icanon x -> sg x = Minus -> 0 <= i < B ->
-       iset_bit bits x i v = omap ienc (spec_set_bit (ival x) i v).
-   Proved below for the sub-cases of `set_negative_bit` listed in [snb_covered]: index beyond the
-   top digit (set and clear), index above the lowest set bit (set and clear), setting the lowest
-   set bit, clearing a bit below it.  Missing: clearing the lowest set bit (the carry walk) and
-   setting a bit below it (the mask flip); both are covered by the correspondence run only. *)
-Theorem C07_set_bit_neg_partial : forall x i v, icanon x -> sg x = Minus -> 0 <= i < B ->
-  snb_covered (mag x) i v ->
+(** every sign, all five arms of `set_negative_bit` (grow beyond the top digit, above / at /
+    below the lowest set bit, the carry walk and the mask flip included) *)
+Theorem C07_set_bit : forall x i v, icanon x -> vec_ok (mag x) -> 0 <= i < B ->
   iset_bit bits x i v = omap ienc (spec_set_bit (ival x) i v).
-Proof. intros. apply iset_bit_neg_partial; auto using bits_params_ok. Qed.
-Print Assumptions C07_set_bit_neg_partial.
+Proof. intros. apply iset_bit_spec; auto using bits_params_ok. Qed.
+Print Assumptions C07_set_bit.
 Theorem C07_set_bit_exec : forall x i v, 0 <= i -> spec_set_bit_exec x i v = spec_set_bit x i v.
 Proof. intros. unfold spec_set_bit_exec, spec_set_bit. f_equal. apply set_bit_exec_eq; auto. Qed.
 Print Assumptions C07_set_bit_exec.
@@ -177,5 +171,7 @@ Example C07_nonvacuous :
   iand bits (mkint Minus [0; 1]) (mkint Minus [B - 1]) = Ret (mkint Minus [0; 1]) /\
   ixor bits (mkint Plus [B - 1; B - 1]) (mkint Minus [1]) = Ret (mkint Minus [0; 0; 1]) /\
   biguint_shl [0; 1] 65 = Ret [0; 0; 2] /\
-  ishr bits addsub (mkint Minus [1; 1]) 64 = Ret (mkint Minus [2]).
+  ishr bits addsub (mkint Minus [1; 1]) 64 = Ret (mkint Minus [2]) /\
+  iset_bit bits (mkint Minus [0; B - 1]) 64 false = Ret (mkint Minus [0; 0; 1]) /\
+  iset_bit bits (mkint Minus [0; 0; 2]) 3 true = Ret (mkint Minus [B - 8; B - 1; 1]).
 Proof. repeat split; vm_compute; reflexivity. Qed.
